@@ -127,8 +127,10 @@ def run(ctx, chk):
                 if len(r) == 1 and not r[0].guards and r[0].ret[0] == "call" and re.search(r"PartialEq(<[^>]*(<[^>]*>)?[^>]*>)?>::eq$|PartialEq(<.*>)? for .*>::eq$", r[0].ret[1]):
                     args = r[0].ret[2]
                     def base(t):
-                        while isinstance(t, tuple) and t[0] == "seqview":
-                            t = t[1]
+                        # the operand itself, its content view, or the text of an owned string
+                        while isinstance(t, tuple) and (t[0] == "seqview" or an.is_call(t, re.compile(
+                                r"^std::string::String::as_str$|^<std::string::String as std::ops::Deref>::deref$|^<std::string::String as std::convert::AsRef<str>>::as_ref$"))):
+                            t = t[1] if t[0] == "seqview" else t[2][0]
                         return t
                     ok = len(args) == 2 and {base(args[0]), base(args[1])} == {P(1), P(2)} and "seq::" in r[0].ret[1] + " kmer::" and \
                         ("seq::slice::SeqSlice" in r[0].ret[1] or "seq::Seq" in r[0].ret[1] or "kmer::Kmer" in r[0].ret[1])
